@@ -139,6 +139,17 @@ function analyze (ast, tempRe) {
       return
     }
     if (n.type === 'AssignmentExpression' && n.operator === '=' && isTemp(n.left)) { domWalk(n.right, env); return }
+    if (n.type === 'AssignmentExpression' && n.left.type === 'MemberExpression') {
+      // `(t0 = O)[t1 = K] = RHS`: object and key of the target are evaluated (and their temporaries written) before RHS
+      let e2 = env
+      for (const part of [n.left.object, n.left.computed ? n.left.property : null]) {
+        if (!part) continue
+        domWalk(part, e2)
+        if (ownAssign(part)) { e2 = new Set(e2); e2.add(part.left.name) }
+      }
+      domWalk(n.right, e2)
+      return
+    }
     if (isTemp(n)) { if (!env.has(n.name)) problems.push({ kind: 'temp-read-not-dominated-by-write', name: n.name, at: n.start }); return }
     if (n.type === 'VariableDeclaration' && isInjectedLet(n)) return
     if (FUNC.has(n.type) || n.type === 'PropertyDefinition' || n.type === 'StaticBlock') { for (const k of Object.keys(n)) { if (k === 'type' || k === 'start' || k === 'end' || k === 'loc' || k.startsWith('__')) continue; const v = n[k]; if (isObj(v)) domWalk(v, new Set()) } return }
